@@ -67,7 +67,6 @@ func HandWritten() []*Case {
 		mk("h52", "select-key-naming-an-unknown-column", "ph52", "// gomacro:SQL _SELECT KEY(Foo)\ntype Row struct {\n\tId int64\n\tName string\n}\n", ""),
 		mk("h53", "union-member-through-a-promoted-method", "ph53", "type Shape interface{ isShape() }\ntype Circle struct{ R float64 }\nfunc (Circle) isShape() {}\ntype Square struct{ Side float64 }\nfunc (Square) isShape() {}\ntype LabelledCircle struct {\n\tCircle\n\tLabel string\n}\ntype Drawing struct {\n\tMain Shape\n\tAll Shapes\n}\ntype Shapes []Shape\n", ""),
 		mk("h54", "embedded-pointer-and-pointer-fields", "ph54", "type Audit struct {\n\tCreatedAt time.Time\n\tBy string\n}\ntype Address struct{ City string }\ntype Level int\nconst (\n\tLow Level = iota + 1\n\tHigh\n)\ntype Order struct {\n\t*Audit\n\tAddress\n\tId int64\n\tNext *Address\n\tLevels []*Level\n}\n", ""),
-		mk("h55", "type-names-differing-by-case-only", "ph55", "type Item struct{ A int }\ntype item struct{ B string }\ntype Kind int\nconst (\n\tKa Kind = iota\n\tKb\n)\ntype kind string\nconst (\n\tXa kind = \"xa\"\n\tXb kind = \"xb\"\n)\ntype Order struct {\n\tMain Item\n\tLines []item\n\tK Kind\n\tX kind\n}\n", ""),
 		mk("h56", "maps-keyed-by-an-enum-and-by-strings-with-one-element-type", "ph56", "type Level int\nconst (\n\tLow Level = iota\n\tMid\n\tHigh\n)\ntype Code string\nconst (\n\tCa Code = \"a\"\n\tCb Code = \"b\"\n)\ntype Prefs struct {\n\tId int64\n\tByLevel map[Level]string\n\tLabels map[string]string\n\tByCode map[Code]int\n\tCounts map[string]int\n}\ntype Other struct {\n\tId int64\n\tNames map[string]string\n\tPerLevel map[Level]string\n}\n", ""),
 		mk("h44", "json-column-of-recursive-named-container", "ph44", "type Tree []Tree\ntype Dict map[string]Dict\ntype T struct {\n\tId int64\n\tTree Tree\n\tDict Dict\n}\n", ""),
 		mk("h45", "enum-constants-over-two-files-with-equal-values", "ph45", "type Color int\nconst (\n\tRed Color = iota\n\tGreen\n\tBlue\n)\ntype Paint struct {\n\tC Color\n\tL Level\n}\n", "const defaultColor = Green\nconst fallbackColor Color = Red\ntype Level uint8\nconst (\n\tLow Level = iota\n\tHigh\n)\nconst levelUnset Level = 255\nconst levelDefault = Low\n"+bigPadding()),
@@ -79,6 +78,21 @@ func HandWritten() []*Case {
 	out = append(out, RecursionShapes()...)
 	out = append(out, SameNamedPackages()...)
 	return out
+}
+
+// CaseOnlyNames: type names that differ by letter case only. TypeScript and Go keep them apart; the
+// Dart class names (title-cased) and the SQL table names of such a program collide (a recorded
+// finding of C06), so only the runners of C03 and C06 include it.
+func CaseOnlyNames() []*Case {
+	mk := func(id, feat, pkgName, src string, other string) *Case {
+		c := &Case{ID: id, Feat: []string{"hand:" + feat}}
+		c.Main = &Pkg{Name: pkgName, Imports: map[string]string{}}
+		c.Main.Files = []*File{{Name: "defs.go", Decls: []*Decl{{Kind: "raw", Name: feat, Text: src}}}}
+		return c
+	}
+	return []*Case{
+		mk("h55", "type-names-differing-by-case-only", "ph55", "type Item struct{ A int }\ntype item struct{ B string }\ntype Kind int\nconst (\n\tKa Kind = iota\n\tKb\n)\ntype kind string\nconst (\n\tXa kind = \"xa\"\n\tXb kind = \"xb\"\n)\ntype Order struct {\n\tMain Item\n\tLines []item\n\tK Kind\n\tX kind\n}\n", ""),
+	}
 }
 
 // KnownDefects returns programs that reproduce recorded findings which the random grammar is kept
